@@ -4449,29 +4449,34 @@ class ParseCtx:
         contents = escaped_string[1:-1]
         result = ""
         i = 0
-        while i < len(contents):
-            if contents[i] != '\\':
-                result += contents[i]
-                i += 1
-            else:
-                i += 1
-                if contents[i] == "x" or contents[i] == "u":
-                    if contents[i] == "u":
-                        raise NotImplementedError("don't support uescapes yet")
-                    code = contents[i+1:i+3]
-                    result += chr(int(code, base=16))
-                    i += 3
-                else:
-                    result += {
-                        'n': '\n',
-                        'r': '\r',
-                        't': '\t',
-                        'b': '\b',
-                        '0': '\x00',
-                        '"': '"',
-                        '\\': '\\'
-                    }[contents[i]]
+        try:
+            while i < len(contents):
+                if contents[i] != '\\':
+                    result += contents[i]
                     i += 1
+                else:
+                    i += 1
+                    if contents[i] == "x" or contents[i] == "u":
+                        if contents[i] == "u":
+                            raise IllegalParseTree("Unicode escapes are not supported in string " + escaped_string)
+                        code = contents[i+1:i+3]
+                        if len(code) != 2:
+                            raise ValueError(code)
+                        result += chr(int(code, base=16))
+                        i += 3
+                    else:
+                        result += {
+                            'n': '\n',
+                            'r': '\r',
+                            't': '\t',
+                            'b': '\b',
+                            '0': '\x00',
+                            '"': '"',
+                            '\\': '\\'
+                        }[contents[i]]
+                        i += 1
+        except (KeyError, ValueError, IndexError) as e:
+            raise IllegalParseTree("Invalid escape sequence in string " + escaped_string) from e
         return result
 
     def _convert_binary_string(self, binary_string: str):
